@@ -334,41 +334,45 @@ Reg const r_sets{
 
 // ------------------------------------------------------------------------------------------------
 // index_map: all histories of up to 4 accesses with indices 0..3 (get with an insert function, then [])
+// Reading: "If there is no such element, the result of insert() is inserted. Note that insert might be
+// called multiple times": demanded are no call when the index exists, at least one call otherwise,
+// size = index + 1 afterwards, old elements untouched and every new element a value that insert()
+// returned during this call; not the exact number of calls.
 void index_map_case(i64 len_, i64 code_)
 {
   int const len = static_cast<int>(mod(len_, 5));
   i64 const code = mod(code_, ipow(8, len));
   fcppt::container::index_map<int> im{};
   IV model;
-  int next = 100, calls = 0;
-  bool grew_by_two = false;
+  int next = 100;
   count(len >= 2);
   for (int i = 0; i < len; ++i)
   {
     int const op = dig(code, i, 8), index = op % 4;
     bool const use_get = op >= 4;
     std::size_t const before = model.size();
-    int want_calls = 0;
-    while (model.size() <= static_cast<std::size_t>(index))
-    {
-      model.push_back(use_get ? next + want_calls : 0);
-      ++want_calls;
-    }
-    grew_by_two = grew_by_two || want_calls >= 2;
+    bool const present = before > static_cast<std::size_t>(index);
+    std::size_t const want_size = present ? before : static_cast<std::size_t>(index) + 1U;
     if (use_get)
     {
-      calls = 0;
+      int calls = 0;
       int const base = next;
       int &r = im.get(static_cast<std::size_t>(index), fcppt::container::index_map<int>::insert_function{[&calls, base] { return base + calls++; }});
-      next += want_calls;
-      chk(calls == want_calls, before > static_cast<std::size_t>(index) ? "container::index_map|get-insert-calls|index-present" : "container::index_map|get-insert-calls|index-beyond-size", [&] { return "index_map::get(" + std::to_string(index) + ") with size " + std::to_string(before) + " called insert " + std::to_string(calls) + " times, expected " + std::to_string(want_calls); });
-      chk(im.impl() == model && &r == &im.impl()[static_cast<std::size_t>(index)], "container::index_map|get-result", [&] { return "index_map after get(" + std::to_string(index) + ") = " + show(im.impl()) + ", expected " + show(model); });
+      next += calls + 1;
+      chk(present ? calls == 0 : calls >= 1, present ? "container::index_map|get-insert-calls|index-present" : "container::index_map|get-insert-calls|index-beyond-size", [&] { return "index_map::get(" + std::to_string(index) + ") with size " + std::to_string(before) + " called insert " + std::to_string(calls) + " times"; });
+      IV const &now = im.impl();
+      bool ok = now.size() == want_size && &r == &now[static_cast<std::size_t>(index)];
+      for (std::size_t k = 0; ok && k < now.size(); ++k) ok = k < before ? now[k] == model[k] : (now[k] >= base && now[k] < base + calls);
+      chk(ok, "container::index_map|get-result", [&] { return "index_map after get(" + std::to_string(index) + ") = " + show(now) + ", before " + show(model) + ", insert returned " + std::to_string(base) + ".." + std::to_string(base + calls - 1); });
+      model = now; // the new elements were validated above
+      model.resize(want_size, -1);
       r = 50 + i; // write through the reference
       model[static_cast<std::size_t>(index)] = 50 + i;
     }
     else
     {
       int &r = im[static_cast<std::size_t>(index)];
+      model.resize(want_size, 0); // operator[] inserts T()
       chk(im.impl() == model && &r == &im.impl()[static_cast<std::size_t>(index)], "container::index_map|subscript-result", [&] { return "index_map after [" + std::to_string(index) + "] = " + show(im.impl()) + ", expected " + show(model); });
       r = 70 + i;
       model[static_cast<std::size_t>(index)] = 70 + i;
